@@ -120,8 +120,8 @@ CHECKS = {
     ),
     "C12": dict(
         level="exploration",
-        rule=("scripted peer against a goat server; alphabet of 25 envelope shapes (valid unary, unary without body / with undecodable -bin metadata / wrong destination / garbage body, unknown service, unknown method, unparsable and empty method, no header, empty envelope, stream open, open with bad metadata / wrong destination / 2-hop route record, body, garbage body, OK and error trailers, reset, reset of unknown type, body+trailer, timeout headers 1n and 99999999H, response-shaped envelope) x stream ids {1,2} = 50 symbols. "
-              "(a) bounded-exhaustive: every sequence of length<=2 (2550) plus a seeded 1/40 sample of length 3 in the quick tier; every sequence of length<=3 (127550) plus a 1/20 sample of length 4 in the thorough tier; (b) rapid sequences of length 1..40; each sequence is followed by a valid probe request on a fresh id, the bubble settles after every envelope. "
+        rule=("scripted peer against a goat server; alphabet of 27 envelope shapes (valid unary, unary without body / with undecodable -bin metadata / wrong destination / garbage body, unknown service, unknown method, unparsable and empty method, no header, empty envelope, stream open, open with bad metadata / wrong destination / 2-hop route record, body, garbage body, open and body for a stream whose handler reads one message and then lingers without reading until just before the probe, OK and error trailers, reset, reset of unknown type, body+trailer, timeout headers 1n and 99999999H, response-shaped envelope) x stream ids {1,2} = 54 symbols. "
+              "(a) bounded-exhaustive: every sequence of length<=2 (2970) plus a seeded 1/40 sample of length 3 in the quick tier; every sequence of length<=3 (160434) plus a 1/20 sample of length 4 in the thorough tier; (b) rapid sequences of length 1..40; each sequence is followed by a valid probe request on a fresh id, the bubble settles after every envelope. "
               "Oracle (invariants, not an exact model): process alive, Serve still running, probe answered exactly; unary handler runs == well-formed unary requests (requests without a body may or may not run it), every run answered exactly once with a well-formed swapped-address response, refusals only for undecodable requests; "
               "stream handler starts <= well-formed opens and >=1 if any; a body for a never-opened id is answered by a reset for that id; resets only with such a trigger; no envelope for an id never received. Non-trivial = sequence mixes malformed and well-formed envelopes or touches an id twice."),
         jobs=[dict(test="TestC12Enum", kind="enum", quick=1, thorough=1), dict(test="TestC12", quick=3200, thorough=40000), dict(test="FuzzC12", kind="fuzz", quick=0, thorough=150)],
